@@ -223,6 +223,11 @@ def run_impl(lines: list[str]):
     im = Impl()
     out_lines, recs = [], []
     for ln in lines:
+        if ln.startswith("trace "):
+            for l2, rec in im.apply_trace(ln):
+                out_lines.append(l2)
+                recs.append(rec)
+            continue
         l2, rec = im.apply(ln)
         out_lines.append(l2)
         recs.append(rec)
